@@ -163,3 +163,18 @@ func vhC14MessageUnmarshalTpl() {
 		verifCover("C14/Message.UnmarshalText/field-set")
 	}
 }
+
+// UnmarshalJSON: encoding/json is over-approximated by the executor (the
+// document decodes to the arbitrary string s, or decoding fails); natively the
+// document is the real JSON encoding of s.
+func vhC14UnmarshalJSON() {
+	f := messageField{value: verifNondetString("prev", 2), set: verifNondetBool("prevset")}
+	if verifChoose("null", 2) == 1 {
+		err := f.UnmarshalJSON([]byte("null"))
+		verifAssert(err == nil && !f.IsSet(), "C14/UnmarshalJSON/null-unsets")
+		return
+	}
+	s := verifNondetString("s", verifParam("N", 4))
+	err := f.UnmarshalJSON(verifJSONDoc(s))
+	vhC14Check("UnmarshalJSON", s, f, err, true)
+}
